@@ -208,11 +208,13 @@ class Server:
     def alive(self):
         return self.proc is not None and self.proc.poll() is None
 
-    def bulk(self, body, timeout=120):
-        """POSTs the stream (sending in a thread so that a server streaming replies early cannot deadlock us)."""
+    def bulk(self, body, timeout=120, keepalive=False):
+        """POSTs the stream (sending in a thread so that a server streaming replies early cannot deadlock us).
+        keepalive: without `Connection: close`, as ordinary HTTP clients do - an HTTP/1.x server then has to be in
+        full-duplex mode to go on reading the request stream once it has begun to reply."""
         s = socket.create_connection(("127.0.0.1", self.port), timeout=timeout)
         head = ("POST /bulk HTTP/1.1\r\nHost: 127.0.0.1\r\nContent-Type: application/json\r\nContent-Length: %d\r\n"
-                "Connection: close\r\n\r\n" % len(body)).encode()
+                "%s\r\n" % (len(body), "" if keepalive else "Connection: close\r\n")).encode()
         th = threading.Thread(target=lambda: _sendall(s, head + body))
         th.start()
         resp = http.client.HTTPResponse(s)
@@ -492,11 +494,11 @@ def bulk_streams(c, quick):
         sh("rm -rf " + tmp)
 
 
-def run_bulk(srv, body):
+def run_bulk(srv, body, keepalive=False):
     if srv is not None:
         if not srv.alive():
             srv.start()
-        st, text = srv.bulk(body)
+        st, text = srv.bulk(body, keepalive=keepalive)
         return text
     p = subprocess.run([os.path.join(BIN, "gobl"), "bulk"], input=body, stdout=subprocess.PIPE, stderr=subprocess.PIPE, timeout=300)
     return p.stdout.decode("utf-8", "replace")
@@ -536,7 +538,7 @@ def _bulk_streams(c, quick, srv, keyfile, pubfile, pubkey, tmp):
     def post(i):
         reqs, tail, pid = cases[i]
         try:
-            results[i] = parse_stream(run_bulk(srv, stream_text(reqs, tail)))
+            results[i] = parse_stream(run_bulk(srv, stream_text(reqs, tail), keepalive=(i % 2 == 1)))   # every other stream as a keep-alive client
         except Exception as e:  # noqa
             results[i] = e
 
@@ -578,7 +580,7 @@ def _bulk_streams(c, quick, srv, keyfile, pubfile, pubkey, tmp):
         c.report("bulk output is produced by NO schedule of the model (%d requests): %s" % (len(reqs), small[1] if small else why), rep)
     c.cov["bulk"] = {"streams": len(metas), "requests": sum(len(m[0]) for m in metas), "streams_with_reordered_replies": reordered,
                      "streams_ending_in_decode_error": sum(1 for m in metas if m[2] is not None), "rejected": rejected,
-                     "standalone_cli_invocations": sa.n, "transport": "HTTP POST /bulk on 127.0.0.1" if srv else "gobl bulk (stdin)",
+                     "standalone_cli_invocations": sa.n, "transport": "HTTP POST /bulk on 127.0.0.1 (alternately Connection: close and keep-alive)" if srv else "gobl bulk (stdin)",
                      "largest_stream_bytes": max([len(stream_text(m[0], m[1])) for m in metas] or [0]), "wall_s": round(time.time() - t0, 1)}
     if metas:
         c.sample({"bulk_stream_requests": len(metas[0][0]), "observed_seq_order": [o[1] for o in metas[0][4]][:20]})
